@@ -63,6 +63,9 @@ def plan(tier, seed):
         # caller matrices in non-native byte order (as read from a big-endian file); jaccard is the
         # metric that accepts them
         shards.append(("bfs", kind, "jaccard", tier, "bigendian"))
+        # heavily tied training sets (all arrangements of the unit square's corners): fits that end with
+        # training errors must leave the caller's label array alone as well
+        shards.append(("ties", kind))
     return shards
 
 
@@ -679,10 +682,70 @@ def shard_twice(shard, seed, res):
         shutil.rmtree(tmpdir, ignore_errors=True)
 
 
+def ties_case(prog):
+    """fit (+ predict) on a tied training set; every caller array must keep its bits."""
+    kind = prog["kind"]
+    X = np.array(prog["X"], dtype=float)
+    Y = np.array(prog["Y"], dtype=int)
+    arrays = {"X": X, "Y": Y}
+    m = new_model(kind, "euclidean")
+    if kind == "SemiSupervisedOPF":
+        arrays = {"X": X[:3].copy(), "Y": Y[:3].copy(), "Xu": X[3:].copy()}
+    elif kind == "KNNSupervisedOPF":
+        arrays["Xv"], arrays["Yv"] = X.copy(), Y.copy()
+    before = {k: bits(v) for k, v in arrays.items()}
+    try:
+        if kind == "SemiSupervisedOPF":
+            m.fit(arrays["X"], arrays["Y"], arrays["Xu"])
+        elif kind == "KNNSupervisedOPF":
+            m.fit(arrays["X"], arrays["Y"], arrays["Xv"], arrays["Yv"])
+        else:
+            m.fit(arrays["X"], arrays["Y"])
+        m.predict(arrays["X"])
+    except Horizon:
+        raise
+    except Exception:
+        pass
+    ch = [k for k, v in arrays.items() if bits(v) != before[k]]
+    if ch:
+        return viol("model-history", prog, "after %s.fit / predict on %s with labels %s the caller's array(s) %s "
+                    "changed (e.g. %s)" % (kind, prog["X"], prog["Y"], ch, arrays[ch[0]].tolist()),
+                    "%s: caller array modified by fit" % kind)
+    return None
+
+
+def shard_ties(shard, seed, res):
+    _, kind = shard
+    sc = [1.0, 0.5, 2.0, 3.0][seed % 4] if seed else 1.0
+    corners = [(0.0, 0.0), (sc, 0.0), (0.0, sc), (sc, sc)]
+    from mc import enum as E
+    prog = None
+    for seq in itertools.product(range(4), repeat=4):
+        for lab in E.labelings(4, max_classes=2):
+            if kind == "SemiSupervisedOPF" and len(set(lab[:3])) < 2:
+                continue
+            prog = {"part": "ties", "kind": kind, "X": [list(corners[i]) for i in seq], "Y": list(lab)}
+            with horizon(30.0):
+                v = ties_case(prog)
+            res.evaluations += 1
+            res.transitions += 2
+            res.traces += 1
+            res.states += 1
+            res.nontrivial += 1
+            if v:
+                res.violations.append(v)
+                return
+    res.sample(prog, 1)
+    res.outcome((kind, "ties"))
+
+
 def run(shard, seed):
     res = Result()
     NONFINITE[0] = False
     BIGENDIAN[0] = False
+    if shard[0] == "ties":
+        shard_ties(shard, seed, res)
+        return res
     if shard[0] == "hist":
         shard_hist(shard, seed, res)
     elif shard[0] == "bfs":
@@ -710,6 +773,8 @@ def _replay(case):
             if r[0]:
                 return viol("metric-history", p, r[0], case.get("fingerprint"))
             return None
+        if p["part"] == "ties":
+            return ties_case(p)
         if p["part"] == "bfs":
             kind, metric, hist = p["kind"], p["metric"], p["history"]
             NONFINITE[0] = bool(p.get("nonfinite"))
